@@ -495,3 +495,24 @@ func lenFact(info *types.Info, fc eng.Fact, isX func(ast.Expr) bool) (nonEmpty b
 	}
 	return false, false
 }
+
+// expandVariadic returns the arguments of call; a final `xs...` whose xs is (a local assigned once from) a slice
+// literal is replaced by the literal's elements.
+func expandVariadic(info *types.Info, body ast.Node, call *ast.CallExpr) []ast.Expr {
+	if !call.Ellipsis.IsValid() || len(call.Args) == 0 {
+		return call.Args
+	}
+	last := resolveLocal(info, body, call.Args[len(call.Args)-1])
+	cl, ok := ast.Unparen(last).(*ast.CompositeLit)
+	if !ok {
+		return call.Args
+	}
+	out := append([]ast.Expr{}, call.Args[:len(call.Args)-1]...)
+	for _, e := range cl.Elts {
+		if _, isKV := e.(*ast.KeyValueExpr); isKV {
+			return call.Args
+		}
+		out = append(out, e)
+	}
+	return out
+}
